@@ -283,7 +283,7 @@ fn oracle(c: &Case, o: &Outcome) -> Vec<(String, String)> {
     // Injected datagrams (End::Inject / End::Script) are the harness' own and are not on `o.wire`.
     for (sig, d) in crate::props::c13::wire_verdict(&o.wire).fails { fails.push((format!("wire:{sig}"), d)); }
     for side in 0..2 {
-        for (sig, d) in crate::props::c13::txw_lines(side, c, o).2 { if sig.starts_with("quiescence:") { fails.push((sig, d)); } }
+        for (sig, d) in crate::props::c13::txw_lines(side, c, o).2 { if sig.starts_with("quiescence:") && !sig.starts_with("quiescence:SACK") { fails.push((sig, d)); } }   // (the "one unowed SACK per datagram" allowance is only exact on C13's single-task runs)
     }
     let any_pr = c.chans.iter().flatten().any(|ch| kind_of(ch).1);
     // channel table: every channel created anywhere, by id
@@ -332,7 +332,7 @@ fn oracle(c: &Case, o: &Outcome) -> Vec<(String, String)> {
             if !pr && delivered.len() < submitted.len() && !fails.iter().any(|f| f.0.starts_with("delivered:")) {
                 // excused only by a close the case itself asked for, or by a channel DCEP cannot carry
                 let uncarriable = ch.label.len() > 65_535 || ch.protocol.len() > 65_535;
-                let excused = (0..2).any(|s| c.end.closes_side(s)) || c.closes.iter().any(|(_, id)| *id == ch.id) || uncarriable;
+                let excused = c.closes.iter().any(|(_, id)| *id == ch.id) || uncarriable;   // (a teardown only starts after everything was delivered)
                 if !excused {
                     fails.push((if any_pr { "stall:reliable-channel-behind-abandoned-chunk".to_string() } else { "stall".to_string() },
                         format!("{who}: {} of {} delivered after {} ms", delivered.len(), submitted.len(), o.elapsed_ms)));
@@ -359,15 +359,14 @@ fn oracle(c: &Case, o: &Outcome) -> Vec<(String, String)> {
     // and they do open (DCEP cannot carry a label / protocol longer than 65535 bytes: those must never open)
     for side in 0..2 {
         for ch in c.chans[side].iter().filter(|c| !c.negotiated) {
-            let creator_open = o.chans_final[side].iter().any(|f| f.id == ch.id && f.state != 0);
+            let creator_open = o.events[side].iter().any(|(id, e)| *id == ch.id && matches!(e, DataChannelEvent::Open));   // (not the final state: a teardown closes never-opened channels too)
             let carriable = ch.label.len() <= 65_535 && ch.protocol.len() <= 65_535;
             let at_peer = o.chans_final[1 - side].iter().find(|f| f.id == ch.id);
             if !carriable {
                 if creator_open || at_peer.is_some() { fails.push(("dcep:uncarriable-channel-opened".into(), format!("ch{}: label {} bytes", ch.id, ch.label.len()))); }
                 continue;
             }
-            let closed = o.snaps.iter().any(|s| s.state == SctpState::Closed);
-            if o.connected && !closed && !creator_open { fails.push(("dcep:channel-never-opened".into(), format!("ch{} created by {} is still Connecting after {} ms", ch.id, ["A", "B"][side], o.elapsed_ms))); }
+            if o.connected && !creator_open { fails.push(("dcep:channel-never-opened".into(), format!("ch{} created by {} is still Connecting after {} ms", ch.id, ["A", "B"][side], o.elapsed_ms))); }
             match at_peer {
                 None => if creator_open { fails.push(("dcep:channel-missing-at-peer".into(), format!("ch{} created by {}", ch.id, ["A", "B"][side]))); },
                 Some(f) => if f.label != ch.label || f.protocol != ch.protocol || f.ordered != ch.ordered || f.max_retransmits != ch.max_retransmits || f.max_lifetime != ch.max_lifetime {
